@@ -174,6 +174,24 @@ CLAIMED = {
                   "loop-shape rules on the three setters, reader/writer population agreement",
         design="DESIGN.md §4 C04",
     ),
+    "C08": dict(
+        level="other",
+        text="Structural clauses of cache/workbook agreement: every formula reference builder of the three workbook writers is "
+             "decoded from its format string into (column, first row, last row) as polynomials over {depth, index, len, "
+             "leaf_count, data_point_offset}; every worksheet.write / write_column (helpers inlined, loops interpreted) into the "
+             "cells it fills; the two must be equal as normal forms (A=0, one-based rows = zero-based + 1, a column of n values "
+             "ends at first row + n - 1), the category block must put level k in column depth-1-k and cover columns 0..depth-1, "
+             "rows 2..leaf_count+1; the XY table offset must be 2*index + data_point_offset with data_point_offset the number of "
+             "points before the series; the data attribute cached next to a reference in the XML writers (numRef_xml(ref, fmt, "
+             "values), values_ref with the value points, name_ref with the name) must be the attribute written into those cells; "
+             "series.<x>_ref -> chart_data.<x>_ref -> workbook_writer.<x>_ref keep their name; each chart data kind builds its own "
+             "workbook writer; replace_data rewrites XML and workbook from the same object. NOT decided: column letters beyond Z "
+             "(_column_reference loop), date serial numbers, values as stored by XlsxWriter, series.index == enumeration index.",
+        technique="static analysis: format-string decoding and abstract evaluation of cell addresses in a polynomial normal-form "
+                  "domain (helpers inlined, loop variables as symbols), reference/data pairing read from the XML writers' call "
+                  "sites, delegation name agreement",
+        design="DESIGN.md §4 C08",
+    ),
     "C14": dict(
         level="other",
         text="Structural clauses of table rectangularity and merge consistency: in _Cell.merge the same-table and "
@@ -300,7 +318,7 @@ _NOT_BUILT = "decidable structural clause designed in DESIGN.md but its checker 
 
 NOT_APPLICABLE = {
     "C02": _NOT_BUILT,
-    "C06": _NOT_BUILT, "C08": _NOT_BUILT, "C09": _NOT_BUILT,
+    "C06": _NOT_BUILT, "C09": _NOT_BUILT,
     "C12": _NOT_BUILT, "C13": _NOT_BUILT,
     "C17": _NOT_BUILT,
     "C19": "part-name arithmetic is an equation between values of pure string functions (posixpath "
